@@ -556,7 +556,7 @@ func stdoutSiteUnreachable(p *core.Program, fd *core.FuncDecl, in ssa.Instructio
 			}
 			return true
 		})
-		if ifs == nil || core.ExprStr(ifs.Cond) != "size >= minCacheSize && size <= maxCacheSize" {
+		if ifs == nil || core.Stable(info, ifs.Cond) != "‹int› >= minCacheSize && ‹int› <= maxCacheSize" {
 			return false, "the print is not in the out-of-range branch"
 		}
 		_ = info
@@ -933,12 +933,12 @@ func CLIFlagWiring(p *core.Program, r *core.Report, rule string) {
 	// 2. options: variable -> With* call (unconditional or guarded by exactly its boolean)
 	type opt struct{ getter, with, arg, guard string }
 	opts := []opt{
-		{"getConnlistOptions", "WithLogger", "l", ""},
+		{"getConnlistOptions", "WithLogger", "param#0", ""},
 		{"getConnlistOptions", "WithFocusWorkload", "focusWorkload", ""},
 		{"getConnlistOptions", "WithOutputFormat", "output", ""},
 		{"getConnlistOptions", "WithStopOnError", "", "stopOnFirstError"},
 		{"getConnlistOptions", "WithExposureAnalysis", "", "exposureAnalysis"},
-		{"getDiffOptions", "WithLogger", "l", ""},
+		{"getDiffOptions", "WithLogger", "param#0", ""},
 		{"getDiffOptions", "WithOutputFormat", "outFormat", ""},
 		{"getDiffOptions", "WithArgNames", "dir1Arg, dir2Arg", ""},
 		{"getDiffOptions", "WithStopOnError", "", "stopOnFirstError"},
@@ -968,7 +968,17 @@ func CLIFlagWiring(p *core.Program, r *core.Report, rule string) {
 		}
 		var args []string
 		for _, a := range call.Args {
-			args = append(args, core.ExprStr(a))
+			s := core.ExprStr(a)
+			// the getter's own parameter (the logger) is named by its position, not by its name
+			if id, isID := ast.Unparen(a).(*ast.Ident); isID {
+				sig := fd.Obj.Type().(*types.Signature)
+				for i := 0; i < sig.Params().Len(); i++ {
+					if info.ObjectOf(id) == sig.Params().At(i) {
+						s = fmt.Sprintf("param#%d", i)
+					}
+				}
+			}
+			args = append(args, s)
 		}
 		bad := ""
 		if strings.Join(args, ", ") != o.arg {
